@@ -211,6 +211,10 @@ type socksSpec struct {
 	Kind    string `json:"kind"`     // which user/password is sent
 	User    string `json:"user"`
 	Pass    string `json:"pass"`
+	// Split > 0: every message is written in two TCP segments, cut after Split bytes, 100 ms apart.
+	Split int `json:"split,omitempty"`
+	// Pipelined: greeting, sub-negotiation, CONNECT request and the tagged request are written in one segment.
+	Pipelined bool `json:"pipelined,omitempty"`
 }
 
 func socksCreds(kind string, f cred) (string, string) {
@@ -292,6 +296,15 @@ func socksSession(c *h.Case, s *socksSpec, p *pluginInst, tag string, exact bool
 		}
 		return buf, true
 	}
+	send := func(b []byte) {
+		if s.Split > 0 && s.Split < len(b) {
+			_, _ = conn.Write(b[:s.Split])
+			time.Sleep(100 * time.Millisecond)
+			_, _ = conn.Write(b[s.Split:])
+			return
+		}
+		_, _ = conn.Write(b)
+	}
 	connectReq := func() []byte {
 		port := p.Target.Port
 		return []byte{5, 1, 0, 1, 127, 0, 0, 1, byte(port >> 8), byte(port)}
@@ -327,7 +340,60 @@ func socksSession(c *h.Case, s *socksSpec, p *pluginInst, tag string, exact bool
 			}
 			return
 		}
-		_, _ = conn.Write(append([]byte{5, byte(len(s.Methods))}, s.Methods...))
+		if s.Pipelined {
+			// everything at once; the sub-negotiation bytes are on the wire whatever the server selects
+			all := append([]byte{5, byte(len(s.Methods))}, s.Methods...)
+			all = append(all, authMsg()...)
+			all = append(all, connectReq()...)
+			all = append(all, []byte(fmt.Sprintf("GET /via-socks5 HTTP/1.1\r\nHost: tunnel.test\r\nX-Verif-Tag: %s\r\nConnection: close\r\n\r\n", tag))...)
+			o.sentAuth = true
+			send(all)
+			sel, ok := readN(2)
+			if !ok {
+				return
+			}
+			note("pipelined: method selection %v", sel)
+			if sel[1] != 0x02 {
+				o.refused = sel[1] == 0xff
+				if sel[1] == 0x00 {
+					// the server skipped authentication: whatever follows is parsed as a request
+					rest, _ := io.ReadAll(io.LimitReader(br, 4096))
+					note("pipelined: after no-auth selection: %q", rest)
+					if bytes.Contains(rest, []byte("HTTP/1.1 200")) {
+						o.relayed = p.Target.ID
+					}
+				}
+				return
+			}
+			st, ok := readN(2)
+			if !ok {
+				return
+			}
+			note("pipelined: auth status %v", st)
+			if st[1] != 0 {
+				o.refused, o.authRefused = true, true
+				return
+			}
+			if !exact {
+				o.wrongAccepted = true
+			}
+			rep, ok := readN(10)
+			if !ok {
+				return
+			}
+			note("pipelined: connect reply %v", rep)
+			if rep[1] != 0 {
+				o.refused = true
+				return
+			}
+			line, err := br.ReadString('\n')
+			if err == nil && strings.HasPrefix(line, "HTTP/1.1 200") {
+				o.relayed = p.Target.ID
+			}
+			note("pipelined: tunnel answer %q", strings.TrimSpace(line))
+			return
+		}
+		send(append([]byte{5, byte(len(s.Methods))}, s.Methods...))
 		sel, ok := readN(2)
 		if !ok {
 			return
@@ -346,7 +412,7 @@ func socksSession(c *h.Case, s *socksSpec, p *pluginInst, tag string, exact bool
 				return
 			}
 			o.sentAuth = true
-			_, _ = conn.Write(authMsg())
+			send(authMsg())
 			st, ok := readN(2)
 			if !ok {
 				return
@@ -359,7 +425,7 @@ func socksSession(c *h.Case, s *socksSpec, p *pluginInst, tag string, exact bool
 			if !exact {
 				o.wrongAccepted = true
 			}
-			_, _ = conn.Write(connectReq())
+			send(connectReq())
 			tunnel()
 		default:
 			o.refused = true
@@ -381,7 +447,7 @@ func socksSession(c *h.Case, s *socksSpec, p *pluginInst, tag string, exact bool
 func runSocks(c *h.Case, s *socksSpec) {
 	p := pluginByID(s.Plugin)
 	exact := s.User == p.Cred.User && s.Pass == p.Cred.Pass
-	run.Distinct(fmt.Sprintf("socks|%s|%v|%s|%d|%s", s.Plugin, s.Methods, s.Stage, s.AuthVer, s.Kind))
+	run.Distinct(fmt.Sprintf("socks|%s|%v|%s|%d|%s|%d|%v", s.Plugin, s.Methods, s.Stage, s.AuthVer, s.Kind, s.Split, s.Pipelined))
 	exchange := func(sub int) socksOutcome {
 		tag := tagFor(c, sub)
 		sent := new(bool)
@@ -412,7 +478,7 @@ func runSocks(c *h.Case, s *socksSpec) {
 		}
 		run.Count("socks5_plugin_refusals_checked", 1)
 	}
-	if exact && s.AuthVer == 1 && s.Stage == "normal" && len(s.Methods) == 1 && s.Methods[0] == 2 {
+	if exact && s.AuthVer == 1 && s.Stage == "normal" && len(s.Methods) == 1 && s.Methods[0] == 2 && !s.Pipelined {
 		for try := 1; try <= 2 && o.relayed == "" && !o.authRefused; try++ {
 			time.Sleep(time.Duration(try) * 500 * time.Millisecond)
 			run.Count("positive_control_retries", 1)
@@ -442,6 +508,16 @@ func genSocks(rng *rand.Rand) []spec {
 			out = append(out, spec{Socks: &socksSpec{Plugin: p.ID, Methods: ms, Stage: "skip-auth", AuthVer: 1, Kind: "none", User: "", Pass: "\x01"}})
 		}
 		out = append(out, spec{Socks: &socksSpec{Plugin: p.ID, Methods: nil, Stage: "no-greeting", AuthVer: 1, Kind: "none", User: "", Pass: "\x01"}})
+		// split and pipelined messages
+		for _, k := range []string{"exact", "wrong-pw", "empty-pw", "other-exact"} {
+			u, pw := socksCreds(k, p.Cred)
+			for split := 1; split <= 4; split++ {
+				out = append(out, spec{Socks: &socksSpec{Plugin: p.ID, Methods: []byte{2}, Stage: "normal", AuthVer: 1, Kind: k, User: u, Pass: pw, Split: split}})
+			}
+			for _, ms := range [][]byte{{2}, {0, 2}, {0}} {
+				out = append(out, spec{Socks: &socksSpec{Plugin: p.ID, Methods: ms, Stage: "normal", AuthVer: 1, Kind: k, User: u, Pass: pw, Pipelined: true}})
+			}
+		}
 	}
 	n := run.N(300, 8000)
 	for i := 0; i < n; i++ {
